@@ -31,6 +31,8 @@ type Case struct {
 	Root   string        `json:"root"`
 	Entry  string        `json:"entry"` // data | datawithpath | uri | file
 	Allow  bool          `json:"allow"`
+	// Reuse: the loader has already loaded another root document (first.json, next to the root)
+	Reuse bool `json:"reuse,omitempty"`
 }
 
 func TestMain(m *testing.M) { h.Main(m, "C11") }
@@ -50,12 +52,20 @@ const decoy = `{"openapi":"3.0.3","info":{"title":"decoy","version":"1"},"paths"
 var sections = map[string]string{"Schema": "schemas", "Parameter": "parameters", "Header": "headers", "RequestBody": "requestBodies", "Response": "responses", "Example": "examples", "Link": "links", "Callback": "callbacks", "SecurityScheme": "securitySchemes"}
 
 // forms of a reference that would need another file or URL
-func hostileForms(kind string) []string {
+func hostileForms(kind, root string) []string {
 	frag := "#/components/" + sections[kind] + "/A"
 	if kind == "PathItem" {
 		frag = "#/paths/~1x"
 	}
 	bases := []string{"other.json", "./other.json", "../up.json", "../../../../etc/passwd", "/abs/file.json", "sub/dir/x.yaml", "file:///abs/file.json", "http://evil.example/x.json", "https://evil.example/x.json", "//evil.example/x.json", "%2e%2e/x.json", "other.json?q=1"}
+	// locations that resemble the root document without being it: its path on another host, a URL
+	// with no path at all (an in-memory root has no path either), its file name in another directory,
+	// and the document a reused loader loaded before
+	abs := root
+	if !strings.HasPrefix(abs, "/") {
+		abs = "/" + abs
+	}
+	bases = append(bases, "http://evil.example"+abs, "//evil.example"+abs, "https://evil.example", "//evil.example", "http://evil.example/", "sub/"+path.Base(root), "../"+path.Base(root), "first.json", "./first.json")
 	var out []string
 	for _, b := range bases {
 		out = append(out, b, b+frag)
@@ -79,6 +89,16 @@ func check(c Case) (o h.Outcome) {
 	ld.IsExternalRefsAllowed = c.Allow
 	ld.ReadFromURIFunc = fs.Read
 	var err error
+	if c.Reuse && c.Layout == nil {
+		first := path.Join(path.Dir(path.Clean(c.Root)), "first.json")
+		fs.Files[first] = []byte(decoy)
+		if !o.Guarded("Load/first", func() { _, _ = ld.LoadFromFile(first) }) {
+			return
+		}
+		delete(fs.Files, first)
+		fs.Log = nil
+		o.Class("off:reused-loader")
+	}
 	if !o.Guarded("Load/"+c.Entry, func() {
 		switch c.Entry {
 		case "data":
@@ -225,14 +245,21 @@ func enumerate(shard, nshards int, yield func(Case)) {
 	idx := 0
 	for _, n := range positions(raw) {
 		kind := strings.TrimPrefix(n.Kind, "Ref:")
-		for _, form := range hostileForms(kind) {
-			doc := plant(raw, n, form)
-			for _, e := range entries {
-				idx++
-				if idx%nshards != shard {
-					continue
+		for _, root := range roots {
+			for _, form := range hostileForms(kind, root) {
+				doc := plant(raw, n, form)
+				for _, e := range entries {
+					for _, reuse := range []bool{false, true} {
+						if reuse && !strings.Contains(form, "first.json") {
+							continue
+						}
+						idx++
+						if idx%nshards != shard {
+							continue
+						}
+						yield(Case{Doc: doc, Form: form, PosKind: posName(n), Root: root, Entry: e, Allow: false, Reuse: reuse})
+					}
 				}
-				yield(Case{Doc: doc, Form: form, PosKind: posName(n), Root: roots[idx%len(roots)], Entry: e, Allow: false})
 			}
 		}
 	}
@@ -245,13 +272,13 @@ func gen(t *rapid.T) Case {
 	}
 	raw := docgen.Conforming(t, docgen.Cfg{Unusual: rapid.Bool().Draw(t, "unusual"), Examples: true, MaxPaths: 2})
 	pos := positions(raw)
-	c := Case{Root: rapid.SampledFrom(roots).Draw(t, "root"), Entry: rapid.SampledFrom(entries).Draw(t, "entry")}
+	c := Case{Root: rapid.SampledFrom(roots).Draw(t, "root"), Entry: rapid.SampledFrom(entries).Draw(t, "entry"), Reuse: rapid.IntRange(0, 3).Draw(t, "reuse") == 0}
 	n := rapid.IntRange(1, 3).Draw(t, "nplant")
 	d := jv.Clone(raw).(M)
 	for i := 0; i < n && len(pos) > 0; i++ {
 		p := pos[rapid.IntRange(0, len(pos)-1).Draw(t, "pos")]
 		kind := strings.TrimPrefix(p.Kind, "Ref:")
-		form := rapid.SampledFrom(hostileForms(kind)).Draw(t, "form")
+		form := rapid.SampledFrom(hostileForms(kind, c.Root)).Draw(t, "form")
 		setAt(d, p.Ptr, M{"$ref": form})
 		c.Form, c.PosKind = form, posName(p)
 	}
